@@ -27,6 +27,21 @@ static inline void ABTD_spinlock_clear(ABTD_spinlock *p_lock)
 
 static inline void ABTD_spinlock_acquire(ABTD_spinlock *p_lock)
 {
+#ifdef ABT_VERIF
+    if (ABTI_VERIF_ON()) {
+        /* Same loop; the successful test-and-set and its record are one step. */
+        while (1) {
+            ABTI_VERIF_BEGIN();
+            if (!ABTD_atomic_test_and_set_bool(&p_lock->val)) {
+                ABTI_VERIF_END(ABTI_VEV_SPIN_ACQ, p_lock, 0, 0);
+                return;
+            }
+            ABTI_verif_hooks.unlock();
+            while (ABTD_spinlock_is_locked(p_lock) != ABT_FALSE)
+                ;
+        }
+    }
+#endif
     while (ABTD_atomic_test_and_set_bool(&p_lock->val)) {
         while (ABTD_spinlock_is_locked(p_lock) != ABT_FALSE)
             ;
@@ -36,11 +51,28 @@ static inline void ABTD_spinlock_acquire(ABTD_spinlock *p_lock)
 /* Return ABT_FALSE if the lock is acquired. */
 static inline ABT_bool ABTD_spinlock_try_acquire(ABTD_spinlock *p_lock)
 {
+#ifdef ABT_VERIF
+    if (ABTI_VERIF_ON()) {
+        ABTI_VERIF_BEGIN();
+        ABT_bool verif_ret =
+            ABTD_atomic_test_and_set_bool(&p_lock->val) ? ABT_TRUE : ABT_FALSE;
+        ABTI_VERIF_END(ABTI_VEV_SPIN_TRY, p_lock, verif_ret, 0);
+        return verif_ret;
+    }
+#endif
     return ABTD_atomic_test_and_set_bool(&p_lock->val) ? ABT_TRUE : ABT_FALSE;
 }
 
 static inline void ABTD_spinlock_release(ABTD_spinlock *p_lock)
 {
+#ifdef ABT_VERIF
+    if (ABTI_VERIF_ON()) {
+        ABTI_VERIF_BEGIN();
+        ABTD_atomic_release_clear_bool(&p_lock->val);
+        ABTI_VERIF_END(ABTI_VEV_SPIN_REL, p_lock, 0, 0);
+        return;
+    }
+#endif
     ABTD_atomic_release_clear_bool(&p_lock->val);
 }
 
